@@ -112,7 +112,8 @@ pub fn ipiv_parity(ipiv: &[i32]) -> i32 {
     let mut perm = ipiv.to_owned();
     let mut par = 0;
     for i in 0..perm.len() {
-        if perm[i] != i as i32 {
+        // keep swapping until position i holds i: one pass of single swaps does not sort every cycle
+        while perm[i] != i as i32 {
             let j = perm[i] as usize;
             perm.swap(i, j);
             par += 1;
